@@ -17,11 +17,13 @@ INVS = ['Top1IsAccuracy', 'TopKExtremes', 'TiesLowestIndex', 'ConfusionTrace', '
 TOG = dict(TieLowest=True, OovIsMember=True, NegKZero=True)
 
 
-def make_metric(metrics, c, C):
+def make_metric(metrics, c, C, finite_mask=False):
+  """finite_mask: a banned class gets the logit mask -1e9 instead of -inf (a finite mask entry is ADDED to the score; with
+  scores in 0..2 the effect is the same: the class is never predicted)."""
   m = c['m']
   masked = tuple(c.get('masked', ()))
   banned = c.get('banned', [])
-  lm = tuple(float('-inf') if i in banned else 0. for i in range(C)) if banned else None
+  lm = tuple((-1e9 if finite_mask else float('-inf')) if i in banned else 0. for i in range(C)) if banned else None
   if m == 'accuracy':
     return metrics.Accuracy()
   if m == 'topk':
@@ -132,6 +134,22 @@ def run(ctx):
     except Exception as ex_:  # pylint: disable=broad-except
       ctx.violation(f'exception:{c0["m"]}:{type(ex_).__name__}', f'{type(ex_).__name__}: {ex_} evaluating {c0["m"]} with {key}', replay={'cfg': c0})
       continue
+    # a second realisation of the same abstract cases: the score 0 as a signed zero (-0.0 at even class indices, +0.0 at odd
+    # ones: equal scores, so ties still go to the lowest index) and banned classes through a finite mask entry
+    try:
+      pr2 = np.where(pr == 0, np.where(np.arange(pr.shape[-1]) % 2 == 0, -0.0, 0.0).astype(np.float32), pr).astype(np.float32)
+      st2 = jax.vmap(make_metric(metrics, c0, C, finite_mask=True).evaluate_example)(ex, jnp.array(pr2))
+      for f in got:
+        g2 = np.asarray(getattr(st2, f), np.float64)
+        if not np.array_equal(g2, got[f]):
+          idx2 = int(np.argwhere(np.any((g2 != got[f]).reshape(len(items), -1), axis=1))[0][0])
+          ctx.violation(finding_key(items[idx2]['c']) + ':signed-zero-or-finite-mask', f'{type(metric).__name__} with {dict((k, v) for k, v in items[idx2]["c"].items() if k not in ("target", "scores", "preds"))}: '
+                        f'{f} changes when the score 0 is written as -0.0/+0.0 and banned classes are masked with -1e9 instead of -inf; target={items[idx2]["c"]["target"]} '
+                        f'scores={pr2[idx2].tolist()}: {g2[idx2].tolist()} vs {got[f][idx2].tolist()}', replay={'case': items[idx2]['c']})
+          break
+      replayed += len(items)
+    except Exception as ex_:  # pylint: disable=broad-except
+      ctx.violation(f'exception:{c0["m"]}:{type(ex_).__name__}', f'{type(ex_).__name__}: {ex_} evaluating {c0["m"]} with signed zeros / a finite mask, {key}', replay={'cfg': c0})
     for idx, it in enumerate(items):
       c = it['c']
       exp = expected_arrays(c, it['stat'], C)
